@@ -41,9 +41,10 @@ VariantKws == {"message", "detailed_message", "to_string", "transparent", "disab
 MultiUse == {"serialize", "props", "derive", "doc"}
 
 Positions == {"first", "middle", "last"}
-Inst(rule, derive, kw, shape, pos, split) == [rule |-> rule, derive |-> derive, kw |-> kw, shape |-> shape, pos |-> pos, split |-> split]
+Inst(rule, derive, kw, shape, pos, split) == [rule |-> rule, derive |-> derive, kw |-> kw, shape |-> shape, pos |-> pos, split |-> split, ctx |-> "plain"]
+InstC(i, c) == [i EXCEPT !.ctx = c]
 
-Instances ==
+BaseInstances ==
   \* a struct or union
   {Inst("non_enum", d, "", s, "", FALSE) : d \in Derives, s \in {"struct", "tuple_struct", "unit_struct", "union"}}
   \* a data-carrying variant for VariantArray / EnumTable
@@ -71,8 +72,29 @@ Instances ==
   \* an unknown keyword
   \cup {Inst("unknown_kw", d, "", s, "", FALSE) : d \in Derives \ {"EnumIs", "EnumTryAs", "EnumTable", "FromRepr", "VariantArray", "EnumDiscriminants"}, s \in {"enum", "variant"}}
 
-\* every instance is outside the documented domain by construction
-InDomain(i) == FALSE
+\* ---- contexts: the same offence inside differently shaped, otherwise valid enums ----------------
+\* (a rejection must not depend on what else the enum contains).  generic: a type parameter and a variant
+\* carrying it; disabled_nb: a disabled variant in front; default_nb: a default variant at the end;
+\* styled: an enum-level serialize_all.  Each context is offered only where it is itself valid for the derive
+\* and does not touch the keyword the instance is about.
+Fieldless == {"VariantArray", "EnumTable"}
+ContextsOf(d) == {"plain"}
+                 \cup (IF d \notin Fieldless THEN {"generic"} ELSE {})
+                 \cup (IF d \in UsesVariantKw("disabled") THEN {"disabled_nb"} ELSE {})
+                 \cup (IF d \in UsesVariantKw("default") THEN {"default_nb"} ELSE {})
+                 \cup (IF d \in UsesEnumKw("serialize_all") THEN {"styled"} ELSE {})
+Contexts(i) == IF i.rule \in {"non_enum", "lifetime"} THEN {"plain"}
+               ELSE ContextsOf(i.derive)
+                    \ ((IF i.kw = "disabled" THEN {"disabled_nb"} ELSE {})
+                       \cup (IF i.kw = "default" \/ i.rule \in {"two_defaults", "lone_parse_err"} THEN {"default_nb"} ELSE {})
+                       \cup (IF i.kw = "serialize_all" THEN {"styled"} ELSE {}))
+Instances == UNION {{InstC(i, c) : c \in Contexts(i)} : i \in BaseInstances}
+
+\* positive controls: the same skeletons without any offence, one per derive and context; they are inside the domain
+Controls == UNION {{InstC(Inst("control", d, "", "", "", FALSE), c) : c \in ContextsOf(d)} : d \in Derives}
+
+\* every instance is outside the documented domain by construction, every control inside
+InDomain(i) == i.rule = "control"
 
 \* acceptance of an observed outcome o = [ok, panicked, spans (line ranges of the errors' primary spans), item (line range)]
 SpanInside(sp, item) == item[1] <= sp[1] /\ sp[2] <= item[2]
